@@ -100,8 +100,14 @@ func classPod(r *rand.Rand, name string) *corev1.Pod {
 		p.Spec.Containers[0].SecurityContext.Privileged = &t
 		p.Spec.HostPID = r.Intn(2) == 0
 	}
-	if r.Intn(100) < 25 {
-		p.Spec.InitContainers = []corev1.Container{{Name: "i", Image: "img-i", SecurityContext: p.Spec.Containers[0].SecurityContext.DeepCopy()}}
+	if r.Intn(100) < 35 {
+		// 1-3 init containers: more init containers than regular ones is a shape of its own
+		for k := 0; k < 1+r.Intn(3); k++ {
+			p.Spec.InitContainers = append(p.Spec.InitContainers, corev1.Container{Name: fmt.Sprintf("i%d", k), Image: fmt.Sprintf("img-i%d", k), SecurityContext: p.Spec.Containers[0].SecurityContext.DeepCopy()})
+		}
+	}
+	if r.Intn(100) < 20 {
+		p.Spec.Containers = append(p.Spec.Containers, corev1.Container{Name: "c2", Image: "img-c2", SecurityContext: p.Spec.Containers[0].SecurityContext.DeepCopy()})
 	}
 	if r.Intn(100) < 25 {
 		p.Spec.EphemeralContainers = []corev1.EphemeralContainer{{EphemeralContainerCommon: corev1.EphemeralContainerCommon{Name: "e", Image: "img-e", SecurityContext: p.Spec.Containers[0].SecurityContext.DeepCopy()}}}
@@ -179,16 +185,27 @@ func mutateForUpdate(r *rand.Rand, p *corev1.Pod) (*corev1.Pod, string) {
 		old.Finalizers = []string{"f"}
 		return old, "metadata-only"
 	case 2:
-		old.Spec.Containers[0].Image = "old-image"
-		return old, "container-image"
+		// any position, biased to the last one
+		k := len(old.Spec.Containers) - 1
+		if r.Intn(3) == 0 {
+			k = r.Intn(len(old.Spec.Containers))
+		}
+		old.Spec.Containers[k].Image = "old-image"
+		return old, fmt.Sprintf("container-image@%d/%d", k, len(old.Spec.Containers))
 	case 3:
 		if len(old.Spec.InitContainers) == 0 {
-			old.Spec.InitContainers = []corev1.Container{{Name: "i", Image: "old"}}
-			p.Spec.InitContainers = []corev1.Container{{Name: "i", Image: "img-i", SecurityContext: p.Spec.Containers[0].SecurityContext.DeepCopy()}}
-		} else {
-			old.Spec.InitContainers[0].Image = "old-image"
+			n := 1 + r.Intn(3)
+			for k := 0; k < n; k++ {
+				p.Spec.InitContainers = append(p.Spec.InitContainers, corev1.Container{Name: fmt.Sprintf("i%d", k), Image: fmt.Sprintf("img-i%d", k), SecurityContext: p.Spec.Containers[0].SecurityContext.DeepCopy()})
+			}
+			old.Spec.InitContainers = p.DeepCopy().Spec.InitContainers
 		}
-		return old, "init-image"
+		k := len(old.Spec.InitContainers) - 1
+		if r.Intn(3) == 0 {
+			k = r.Intn(len(old.Spec.InitContainers))
+		}
+		old.Spec.InitContainers[k].Image = "old-image"
+		return old, fmt.Sprintf("init-image@%d/%d(containers=%d)", k, len(old.Spec.InitContainers), len(old.Spec.Containers))
 	case 4:
 		if len(p.Spec.EphemeralContainers) == 0 {
 			p.Spec.EphemeralContainers = []corev1.EphemeralContainer{{EphemeralContainerCommon: corev1.EphemeralContainerCommon{Name: "dbg", Image: "busybox"}}}
